@@ -25,14 +25,15 @@ inductive Ref | self | next | parent | loc
 
 /-- Template source tree.  `text k` is a literal text (written as is), `call r x pos kw` is `${r.x(*pos, **kw)}`
 (`x = body` included), `attr r x` is `${r.attr.x}`, `args` writes the page arguments received by the enclosing
-body (`[${a} ${b} ${list(pageargs.items())}]`), `defn` is `<%def name="n()">`, `block` is `<%block [name=…]>`
-on source line `line`, `callTag` is a `<%call>`/`<%ns:def>` tag with content (only its nesting matters here). -/
+body (`[${a} ${b} ${list(pageargs.items())}]`), `defn` is `<%def name="n(a, b=3)">` (parameters with optional defaults), `block` is `<%block [name=…]>`
+on source line `line`, `callTag` is `<%call expr="zcall()">…</%call>` / `<%self:zcall>…</%self:zcall>` where `zcall`
+is a def consisting of `${caller.body()}` (a call with content whose callee writes the content exactly once). -/
 inductive Node where
   | text (k : Nat)
   | call (r : Ref) (x : Name) (pos : List Val) (kw : List (Name × Val))
   | attr (r : Ref) (x : Name)
   | args
-  | defn (name : Name) (kids : List Node)
+  | defn (name : Name) (params : List (Name × Option Val)) (kids : List Node)
   | block (name : Option Name) (line : Nat) (kids : List Node)
   | callTag (kids : List Node)
 
@@ -70,25 +71,27 @@ def findBlockL (x : Name) : List Node → Option (List Node)
     | none => findBlockL x rest
 end
 
-/-- the last top-level `<%def name="x()">` (a later `def render_x` replaces an earlier one in the module) -/
-def findTopDef (x : Name) : List Node → Option (List Node)
+/-- the last top-level `<%def name="x(…)">` (a later `def render_x` replaces an earlier one in the module):
+its parameters and its nodes -/
+def findTopDef (x : Name) : List Node → Option (List (Name × Option Val) × List Node)
   | [] => none
-  | .defn nm kids :: rest =>
+  | .defn nm ps kids :: rest =>
     match findTopDef x rest with
     | some k => some k
-    | none => if nm = x then some kids else none
+    | none => if nm = x then some (ps, kids) else none
   | _ :: rest => findTopDef x rest
 
 inductive MKind | body | defn | block
   deriving DecidableEq, Repr
 
-/-- `getattr(module, "render_" + x)` with its kind and the nodes of the callable -/
-def Level.member (l : Level) (x : Name) : Option (MKind × List Node) :=
-  if x = bodyName then some (.body, l.nodes)
+/-- `getattr(module, "render_" + x)`: its kind, its declared parameters (`<%page args>` for the body, the def's
+own for a def, none for a block) and the nodes of the callable -/
+def Level.member (l : Level) (x : Name) : Option (MKind × List (Name × Option Val) × List Node) :=
+  if x = bodyName then some (.body, l.sig, l.nodes)
   else match findTopDef x l.nodes with
-    | some k => some (.defn, k)
+    | some (ps, k) => some (.defn, ps, k)
     | none => match findBlockL x l.nodes with
-      | some k => some (.block, k)
+      | some k => some (.block, [], k)
       | none => none
 
 /-- `template.has_def(x)` -/
@@ -136,7 +139,7 @@ inductive Exc
   | attributeError
   | typeError
   | recursion        -- fuel exhausted (Python: RecursionError)
-  | unsupported      -- construct outside the modelled fragment (a `<%call>` at run time)
+  | unsupported      -- construct outside the modelled fragment (no longer produced: calls with content run in place)
   | internal         -- a state the real code cannot be in (KeyError on 'self', dangling index)
   deriving DecidableEq, Repr
 
@@ -306,10 +309,10 @@ def invoke (c : List Level) (run : Env → List Node → Res) (lk : Lookup) (x :
   | .missing => .error .attributeError
   | .builtin => .error .typeError
   | .member t cx =>
-    match (c[t]?).bind (fun l => (l.member x).map (fun m => (l, m))) with
+    match (c[t]?).bind (fun l => l.member x) with
     | none => .error .internal
-    | some (l, (kind, kids)) =>
-      let params := if kind = .body then l.sig else []
+    | some (kind, params, kids) =>
+      -- a def takes exactly its parameters; body and blocks also take `**pageargs`
       match bind params (kind != .defn) pos kw with
       | none => .error .typeError
       | some (b, extra) =>
@@ -327,8 +330,9 @@ def seq (a b : Res) : Res :=
 def step (c : List Level) (D : Dispatch) (run : Env → List Node → Res) (env : Env) : Node → Res
   | .text k => .ok [.text k]
   | .args => .ok [.args env.bound (env.pageargs.getD [])]
-  | .defn _ _ => .ok []
-  | .callTag _ => .error .unsupported
+  | .defn _ _ _ => .ok []
+  | .callTag kids => run env kids                        -- the callee writes `caller.body()` once: the content runs here,
+                                                       -- as a closure of the enclosing code (same context)
   | .attr r x =>
     match D.ref env.ctx r with
     | none => .error .attributeError
@@ -388,7 +392,7 @@ inductive Entry
 
 mutual
 def regionN (top : Bool) : Node → List Entry
-  | .defn n _ => [if top then .rdef n else .ndef n]
+  | .defn n _ _ => [if top then .rdef n else .ndef n]
   | .block (some b) _ kids => .nblock b :: regionL false kids
   | .block none ln kids => .anon ln :: regionL false kids
   | .callTag _ => [.call]
@@ -440,7 +444,7 @@ def defNamesOf : List Entry → List Name
 
 def topDefNames : List Node → List Name
   | [] => []
-  | .defn n _ :: r => n :: topDefNames r
+  | .defn n _ _ :: r => n :: topDefNames r
   | _ :: r => topDefNames r
 
 /-- faults one `_Identifiers` traversal raises on its region -/
@@ -464,7 +468,7 @@ def survives (rk : Root) (nm : Name) (rest : List Node) : Bool :=
 mutual
 /-- faults raised while the callables nested in a node are generated -/
 def deepN (rk : Root) (rest : List Node) : Node → List Fault
-  | .defn nm k => if survives rk nm rest then scan .defn (regionL false k) ++ deepL .defn k else []
+  | .defn nm _ k => if survives rk nm rest then scan .defn (regionL false k) ++ deepL .defn k else []
   | .block _ _ k => scan .block (regionL false k) ++ deepL .block k
   | .callTag k => scan .call (regionL false k) ++ deepL .call k
   | _ => []
